@@ -15,6 +15,7 @@ func factsExtra(ctx *Ctx, b *strings.Builder) {
 	b.WriteString("Open Scope string_scope.\n\n")
 	txnShape(ctx, b)
 	lockShape(ctx, b)
+	lockFacts(ctx, b)
 	factsMore(ctx, b)
 }
 
